@@ -65,8 +65,8 @@ func checkRebind(c *BCase) (f *ev.Failure) {
 	}()
 	vm := goat.New()
 	nextID := 0
-	native := [2]int{}  // id bound to host.n<i>
-	fnVer := [2]int{}   // id of the current body of main.s<i>
+	native := [2]int{} // id bound to host.n<i>
+	fnVer := [2]int{}  // id of the current body of main.s<i>
 	varID := [2]int{-1, -1}
 	varIsFn := [2]int{-1, -1} // when the variable holds script function s<k>: k (it follows redefinitions), else -1
 	setNative := func(i int) {
